@@ -204,7 +204,7 @@ bool ops_module(Ctx &c, Toks const &t, std::string const &rest)
     p->flush_output_streams();
     std::ifstream tf(t[1].c_str());
     std::string ln;
-    long nl = 0, nlabels = -1;
+    long nl = 0, nlabels = -1, nlabel_lines = 0;
     while (std::getline(tf, ln)) {
       std::istringstream is(ln); std::string w; std::vector<std::string> toks;
       while (is >> w) toks.push_back(w);
@@ -214,6 +214,7 @@ bool ops_module(Ctx &c, Toks const &t, std::string const &rest)
         std::vector<std::string> o; for (size_t i = 1; i < toks.size(); i++) o.push_back(stok(toks[i]));
         c.out("tl", join(o));
         nlabels = (long) toks.size() - 2;   // without "#" and "step"
+        nlabel_lines++;
       } else {
         // columns: a parenthesised group "( a , b , c )" is one column
         std::vector<std::string> vals; long ncols = 0; bool in = false;
@@ -226,6 +227,7 @@ bool ops_module(Ctx &c, Toks const &t, std::string const &rest)
         }
         c.out("td", itok(std::strtoll(toks[0].c_str(), nullptr, 10)) + " " + itok(ncols));
         c.out("tc", itok(ncols) + " " + itok(nlabels));   // columns of this line vs labels of the preceding label line
+        c.out("tli", itok(nlabel_lines));                 // which label line (1-based occurrence) precedes this data line
         c.out("tv", join(vals));
       }
     }
